@@ -10,7 +10,15 @@
 3. The harness (cmd/c09) realises each case with the real cmap package -- Format4/Format12.Encode,
    Table.Get + Lookup over the code space, Table.Encode/Decode/GetBest, and for a sample
    golang.org/x/image GlyphIndex on a font carrying the subtable -- plus seeded big maps (V).
-4. TLC judges every recorded event with CmapTrace.tla; a failing clause is re-recorded in
+4. Object model (CmapHist.tla): results are handed out and retained; ResultsStable is model-checked and
+   must fail with a re-used scratch buffer; TLC enumerates every history of 2 (thorough 3) calls over
+   {Format0/4/12.Encode, Table.Get on formats 0/4/6/12, Table.Encode, cmap.Decode} x argument shapes; the
+   harness keeps the real slices/maps and records each result when handed out, after all later calls, and
+   (decoded subtables) after the bytes they came from were overwritten.
+5. Selection with ties (CmapSel.tla): several languages per (platform, encoding), every insertion order,
+   Get/GetNoLang/GetBest called 64 times per site in several fresh processes, before and after
+   Encode/Decode: the answer must be a candidate and the same every time.
+6. TLC judges every recorded event with CmapTrace.tla; a failing clause is re-recorded in
    isolation (complete sweep 0..0x10FFFF) and re-judged before it is reported.
 """
 import json
@@ -32,7 +40,11 @@ MANIFEST = {
             "cmap.Format4/Format12.Encode, Table.Get/Lookup, Table.Encode/Decode/GetBest and x/image GlyphIndex, adds "
             "seeded big maps (64 KiB format-4 limit, 65536-entry format 12), and TLC judges every recorded event with "
             "CmapTrace.tla (well-formedness, agreement at every code point, library decode, x/image decode, spec-encoded "
-            "format 0/6/non-minimal format 4 tables through the library decoder, directory/sharing/best choice).",
+            "format 0/6/non-minimal format 4 tables through the library decoder, directory/sharing/best choice). "
+            "CmapHist.tla is an object model of handed-out results (ResultsStable; must fail with a re-used scratch "
+            "buffer): every history of 2-3 calls is executed with the real results retained and re-read after later "
+            "calls; CmapSel.tla enumerates tables with several languages per (platform, encoding) in every insertion "
+            "order, each selection call is repeated 64 times in several fresh processes and must give one candidate.",
     "note": "Trusted: TLC, the JSON trace encoding, the harness' Lookup sweeps (complete 0..0x10FFFF on a sample and in "
             "every replay; otherwise plane 0 completely plus the images of all mapped codes in every plane and 4096 "
             "random code points). x/image is a second opinion on library-encoded tables only. Out of domain: format-4 "
@@ -42,7 +54,7 @@ MANIFEST = {
                  "the real cmap package + trace validation of the recorded calls against CmapTrace.tla",
 }
 
-_FAIL = re.compile(r'^<<"FAIL", (\d+), (\d+), "(\w+)", \{(.*)\}>>')
+_FAIL = re.compile(r'^<<"FAIL", (\d+), (\d+), "(\w+)", "(\w+)">>')
 
 _EXPLAIN = {
     ("enc", "wf"): "the subtable emitted by Encode is not well formed (header, search fields, segment order, last segment, bounds)",
@@ -68,7 +80,33 @@ _EXPLAIN = {
     ("tdec", "redir"): "re-encoding a decoded table does not give a well-formed directory of the same keys and subtables",
     ("tdec", "reshare"): "re-encoding a decoded table does not keep the shared subtables shared",
     ("tdec", "best"): "GetBest on a decoded table did not pick a subtable of the best class present",
+    ("hE", "correct"): "call history: the subtable an encoder handed out is not well formed / does not decode to the map",
+    ("hE", "stable"): "call history: the byte slice an encoder handed out CHANGED after later calls of the package "
+                      "(the result lives in storage that later calls re-use)",
+    ("hE", "input"): "call history: an encoder modified the map it was given",
+    ("hG", "correct"): "call history: Table.Get decoded a well-formed subtable to another mapping than the format defines",
+    ("hG", "stable"): "call history: a decoded Subtable answers Lookup differently after later calls of the package",
+    ("hG", "indep"): "call history: a decoded Subtable changed when the bytes it was decoded from were overwritten",
+    ("hG", "input"): "call history: Table.Get modified the bytes it was given",
+    ("hT", "correct"): "call history: Table.Encode of subtables handed out earlier is not a directory of exactly these subtables",
+    ("hT", "stable"): "call history: the bytes Table.Encode handed out changed after later calls",
+    ("hT", "input"): "call history: the subtables of a Table changed after Table.Encode and later calls",
+    ("hD", "correct"): "call history: cmap.Decode of a well-formed table does not give its keys and subtables",
+    ("hD", "stable"): "call history: the Table cmap.Decode handed out changed after later calls",
+    ("hD", "input"): "call history: cmap.Decode (or a later call) modified the bytes it was given",
+    ("sel", "get"): "Table.Get(key) did not (always) return the subtable stored under exactly that key",
+    ("sel", "nolang_member"): "GetNoLang(platform, encoding) returned something that is not a subtable of that platform/encoding",
+    ("sel", "nolang_det"): "GetNoLang(platform, encoding) is not a function of the table: with several languages for one "
+                           "(platform, encoding) different calls / processes / insertion orders got different subtables",
+    ("sel", "best"): "GetBest is not deterministic or not of the best class present",
+    ("sel", "dok"): "a table with several languages per (platform, encoding) does not survive Encode/Decode",
+    ("sel", "dget"): "after Encode/Decode, Table.Get(key) did not return the subtable stored under that key",
+    ("sel", "dnolang_member"): "after Encode/Decode, GetNoLang returned a subtable of another platform/encoding",
+    ("sel", "dnolang_det"): "after Encode/Decode, GetNoLang is not a function of the table (answers differ between calls / processes)",
+    ("sel", "dbest"): "after Encode/Decode, GetBest is not deterministic or not of the best class present",
+    ("sel", "calls"): "harness made fewer than 50 calls per selection site",
 }
+_NOTE_ONLY = {("sel", "nolang_first"), ("sel", "dnolang_first")}
 
 
 def _account(ctx, res, label, extra=None):
@@ -92,8 +130,7 @@ def _tlc_trace(ctx, path, heap="3g", timeout=1200):
     for ln in res.prints:
         m = _FAIL.match(ln)
         if m:
-            clauses = re.findall(r'"(\w+)"', m.group(4))
-            fails.append((int(m.group(1)), int(m.group(2)), m.group(3), clauses))
+            fails.append((int(m.group(1)), int(m.group(2)), m.group(3), [m.group(4)]))
     return res, fails
 
 
@@ -115,10 +152,18 @@ def _validate_files(ctx, files, failures, heap="3g", par=None):
             for line, cid, ev, clauses in fails:
                 e = evs[line - 1]
                 for cl in clauses:
+                    if (ev, cl) in _NOTE_ONLY:
+                        msg = ("note: GetNoLang is deterministic but does not pick the first matching record in directory "
+                               "order (lowest language) -- not promised by the repository, not a verdict")
+                        if msg not in ctx.notes:
+                            ctx.notes.append(msg)
+                        continue
                     key = (ev, cl, _efmt(e))
                     size = len(e.get("ic", e.get("w", e.get("w0", e.get("keys", [])))))
-                    g = failures.setdefault(key, {"size": size, "cid": cid, "count": 0, "vars": set()})
+                    g = failures.setdefault(key, {"size": size, "cid": cid, "count": 0, "vars": set(), "alt": []})
                     g["count"] += 1
+                    if cid not in g["alt"] and len(g["alt"]) < 6:
+                        g["alt"].append(cid)
                     if ev == "dec" and e.get("var"):
                         g["vars"].add(e["var"])
                     if size < g["size"]:
@@ -162,14 +207,25 @@ def _report(ctx, failures, cases_by_id):
             raise vlib.Infra("failing event of unknown case %s" % failures[k]["cid"])
     with ThreadPoolExecutor(max_workers=max(1, min(8, ctx.workers // 2))) as ex:
         results = list(ex.map(lambda k: _replay_case(ctx, cases_by_id[failures[k]["cid"]]), keys))
+    unrepro = []
     for k, got in zip(keys, results):
         ev, cl, fmt = k
         g = failures[k]
         ctx.cov["traces_validated_against_impl"] += 1
         same = [x for x in got if x[0] == ev and x[1] == cl and _efmt(x[2]) == fmt]
+        for alt in g["alt"]:
+            # the smallest witness may depend on the state earlier cases left behind: try a few others
+            if same or alt == g["cid"] or alt not in cases_by_id:
+                continue
+            ctx.cov["traces_validated_against_impl"] += 1
+            same = [x for x in _replay_case(ctx, cases_by_id[alt]) if x[0] == ev and x[1] == cl and _efmt(x[2]) == fmt]
+            if same:
+                g["cid"] = alt
         if not same:
-            ctx.notes.append("clause %s/%s of case %s did not fail again in isolation" % (ev, cl, g["cid"]))
-            raise vlib.Infra("failure %s/%s of case %s did not reproduce in isolation" % (ev, cl, g["cid"]))
+            # a failure that depends on what ELSE the process did (e.g. results clobbered by the calls of other
+            # cases): not a verdict by itself; the history phase is where such defects reproduce
+            unrepro.append("%s/%s fmt=%s (case %s, %d events)" % (ev, cl, fmt, g["cid"], g["count"]))
+            continue
         if cl == "specwf" or (ev == "enc" and cl == "map"):
             raise vlib.Infra("the specification's own table / the harness input is ill-formed (%s/%s, case %s): %s"
                              % (ev, cl, g["cid"], _short(same[0][2])))
@@ -181,6 +237,29 @@ def _report(ctx, failures, cases_by_id):
                    (", spec-encoded variants " + ",".join(sorted(g["vars"]))) if g["vars"] else "", g["count"],
                    _short(same[0][2])))
         ctx.violation(what, sig=sig, case=cases_by_id[g["cid"]])
+    if unrepro:
+        ctx.notes.append("failing classes that did not fail again when their case was run alone (they depend on other "
+                         "calls made by the same process): " + "; ".join(unrepro))
+        if not ctx.violations and not ctx.known_hits:
+            raise vlib.Infra("failures did not reproduce in isolation: " + "; ".join(unrepro))
+
+
+def _merge_sel(a, b):
+    """Union of the distinct answers two processes observed for the same case (pure data plumbing)."""
+    if a["case"] != b["case"]:
+        raise vlib.Infra("selection outputs of two processes are not aligned")
+    m = dict(a)
+    m["procs"] = a["procs"] + b["procs"]
+    m["calls"] = min(a["calls"], b["calls"])
+    m["dok"] = min(a["dok"], b["dok"])
+    for f in ("gets", "nolang", "dgets", "dnolang"):
+        if len(a[f]) != len(b[f]):
+            m["dok"] = 0
+            continue
+        m[f] = [x[:-1] + [sorted(set(x[-1]) | set(y[-1]))] for x, y in zip(a[f], b[f])]
+    for f in ("best", "dbest"):
+        m[f] = sorted(set(a[f]) | set(b[f]))
+    return m
 
 
 def _cfg(name):
@@ -200,6 +279,10 @@ def run(ctx):
         "x/image (format 4: binary search, no idDelta on arrays; <= 20000 segments) judges library-encoded tables only",
         "best-subtable oracle demands only the class order full Unicode {(3,10),(0,4)} > BMP {(3,1),(0,3)} > (1,0) "
         "among language-0 keys; nothing when none of these is present",
+        "a Table returned by cmap.Decode is a view of the bytes it was given (subslices); the caller leaves them alone. "
+        "Subtables returned by Table.Get must not depend on their input bytes afterwards",
+        "GetNoLang: the repository only promises a deterministic answer (comment in cmap.go); WHICH language wins "
+        "(today: first record in directory order = lowest language) is reported as a note, not demanded",
         "Macintosh key: either reading (raw codes / Mac Roman -> Unicode) is accepted, but formats 0, 6 and 4 of one "
         "map must be read the same way",
     ]
@@ -252,6 +335,18 @@ def run(ctx):
         sgens.append(bg("CmapGen exhaustive (<= 2 blocks, gaps {0,1,5}, lens {1,3,5}, anchors 0, 0xFFFF, BMP edge)", "CmapGen", cfg="CmapGenX.cfg",
                         files={"CmapGenX.cfg": xcfg}, workers=max(2, W // 2), timeout=1500))
 
+    # ---- 2b. object model: all call histories; selection with ties
+    nops = ctx.pick(2, 3)
+    hgen = bg("CmapHist: every history of %d calls, results retained (ResultsStable)" % nops, "CmapHist", cfg="CmapHistN.cfg",
+              files={"CmapHistN.cfg": _cfg("CmapHist.cfg").replace("MaxOps = 2", "MaxOps = %d" % nops)},
+              workers=max(2, W // 4), timeout=1500)
+    hreuse = bg("CmapHist with a re-used scratch buffer (must fail)", "CmapHist", cfg="CmapHistReuse.cfg", workers=1, timeout=600)
+    nkeys = ctx.pick(3, 4)
+    sgen = bg("CmapSel: every insertion order of 2..%d keys of the pool, DirFirst = first record of the directory" % nkeys,
+              "CmapSel", cfg="CmapSelN.cfg",
+              files={"CmapSelN.cfg": _cfg("CmapSel.cfg").replace("MaxKeys = 3", "MaxKeys = %d" % nkeys)},
+              workers=max(2, W // 4), timeout=1500)
+
     binp = ctx.build("c09")
     d = ctx.subdir("c09")
     cases_by_id = {}
@@ -280,7 +375,7 @@ def run(ctx):
         return [prefix + "-%04d.ndjson" % i for i in range(info["files"])]
 
     def forget(cases):
-        keep = set(g["cid"] for g in failures.values())
+        keep = set(g["cid"] for g in failures.values()) | set(a for g in failures.values() for a in g["alt"])
         for c in cases:
             if c["id"] not in keep:
                 cases_by_id.pop(c["id"], None)
@@ -326,7 +421,70 @@ def run(ctx):
     nstruct = len(set(json.dumps([c["fmt"], c["amode"], c["anchor"], c["blocks"], c["var"], c["lang"]]) for c in scases))
     ctx.sample({"structure_case": {k: scases[1][k] for k in ("fmt", "amode", "anchor", "blocks", "lang", "var", "ic", "ig")}})
 
+    # ---- histories and selection: executed in one goroutine each, selection in several fresh processes
+    label, fut = hgen
+    hg = fut.result()
+    _account(ctx, hg, label)
+    if hg.violated or hg.rc != 0:
+        raise vlib.Infra("CmapHist violates %s on the model:\n%s" % (hg.violated, hg.error_text[:1500]))
+    fixed = [c for c in hg.cases if c.get("kind") == "fixed"]
+    hcases = [c for c in hg.cases if c.get("kind") == "hist"]
+    if len(fixed) != 1 or len(hcases) < 400:
+        raise vlib.Infra("CmapHist printed %d fixed records and %d histories" % (len(fixed), len(hcases)))
+    fx = {k: v for k, v in fixed[0].items() if k != "kind"}
+    for c in hcases:
+        c["fx"] = fx
+    hcases = number(hcases, "hist", 1, 1)
+    ctx.sample({"history_case": hcases[len(hcases) // 3]["ops"]})
+    # every history runs sequentially in one goroutine; the set is split over a few processes
+    nslice = ctx.pick(2, 8)
+    hfiles = []
+
+    def run_hist(si):
+        hp = os.path.join(d, "hist%d.cases" % si)
+        vlib.write_ndjson(hp, hcases[si::nslice])
+        hf = os.path.join(d, "hist-%04d.ndjson" % si)
+        ctx.run([binp, "hist", hp, hf], timeout=1200)
+        os.remove(hp)
+        return hf
+    with ThreadPoolExecutor(max_workers=nslice) as ex:
+        hfiles = list(ex.map(run_hist, range(nslice)))
+
+    label, fut = sgen
+    sg = fut.result()
+    _account(ctx, sg, label)
+    if sg.violated or sg.rc != 0:
+        raise vlib.Infra("CmapSel violates %s on the model:\n%s" % (sg.violated, sg.error_text[:1500]))
+    if len(sg.cases) < 200:
+        raise vlib.Infra("CmapSel printed only %d cases" % len(sg.cases))
+    selcases = number(sg.cases, "sel", 1, 1)
+    ctx.sample({"selection_case": selcases[len(selcases) // 2]["keys"]})
+    spath = os.path.join(d, "sel.cases")
+    vlib.write_ndjson(spath, selcases)
+    nproc = ctx.pick(4, 12)
+    merged = None
+    for pi in range(nproc):                      # fresh processes: the map iteration order differs per process
+        sp = os.path.join(d, "sel-p%d.ndjson" % pi)
+        ctx.run([binp, "select", spath, sp], timeout=900)
+        evs = vlib.read_ndjson(sp)
+        os.remove(sp)
+        merged = evs if merged is None else [_merge_sel(a, b) for a, b in zip(merged, evs)]
+    os.remove(spath)
+    sfile = os.path.join(d, "sel-0000.ndjson")
+    vlib.write_ndjson(sfile, merged)
+    nselcalls = sum(m["calls"] * m["procs"] * (len(m["gets"]) + len(m["nolang"]) + 1) * 2 for m in merged)
+
     # ---- 4. TLC judges every recorded event
+    _validate_files(ctx, hfiles + [sfile], failures)
+    ctx.cov["traces_validated_against_impl"] += len(hcases) + len(selcases) * nproc
+    forget(hcases)
+    forget(selcases)
+    label, fut = hreuse
+    r = fut.result()
+    _account(ctx, r, label)
+    if r.violated != "ResultsStable":
+        raise vlib.Infra("CmapHist with a re-used scratch buffer did not violate ResultsStable (%s): the model is vacuous"
+                         % r.violated)
     _validate_files(ctx, rfiles + tfiles, failures, heap="6g")
     ctx.cov["traces_validated_against_impl"] += len(rcases) + len(tcases)
     forget(tcases)
@@ -357,9 +515,13 @@ def run(ctx):
                                        + ("; all 4374 configurations with 2 contents" if thorough else ""),
                          "structures": "blocks (gap in {0..6,200}, len in {1,2,3,4,5,8}, 6 kinds, 2 bases), <= 4 blocks, "
                                        "9 anchors, 3 languages, 6+2 spec-encoded variants"}
-    ctx.cov["distinct_nontrivial"] = ntab + nstruct + len(rcases)
+    ctx.cov["bounds"]["histories"] = "all %d-call histories over 22 (call, argument shape) pairs" % nops
+    ctx.cov["bounds"]["selection"] = ("every insertion order of 2..%d keys of a 7-key pool (3+2 Macintosh languages); %d calls "
+                                      "per site and table in each of %d fresh processes (%d selection calls)"
+                                      % (nkeys, 64, nproc, nselcalls))
+    ctx.cov["distinct_nontrivial"] = ntab + nstruct + len(rcases) + len(hcases) + len(selcases)
     ctx.cov["rule"] = ("distinct (key set, sharing pattern, storage order) table cases + distinct (format, anchor, block "
-                       "sequence, language, spec-encoded variant) structures generated by TLC + seeded big maps; "
+                       "sequence, language, spec-encoded variant) structures generated by TLC + seeded big maps + call histories + (key sequence) selection cases; "
                        "evaluations = recorded events judged by TLC with CmapTrace.tla")
     if failures:
         ctx.notes.append("failing classes before replay: " + "; ".join(
